@@ -35,7 +35,7 @@ end
     Since the fixes K2/K4 this covers the infinities, NaN and the subnormal numbers as well. -/
 structure FloatOK (F : FloatOps α) (x : α) : Prop where
   start : ∃ c s, saveReal F x = c :: s ∧ numStart c = true
-  chars : ∀ b ∈ saveReal F x, b ≠ 0 ∧ b ≠ 44 ∧ b ≠ 58 ∧ b < 128
+  chars : ∀ b ∈ saveReal F x, b ≠ 0 ∧ b ≠ 10 ∧ b ≠ 44 ∧ b ≠ 58 ∧ b < 128
   parse : ∀ c s, saveReal F x = c :: s → ∀ tail : List Byte,
     (tail = [] ∨ ∃ d r, tail = d :: r ∧ (d = 44 ∨ d = 58)) →
     ∃ y, parseNumeric F c (s ++ tail) = some (.real y, tail) ∧ saveReal F y = saveReal F x
@@ -119,5 +119,30 @@ inductive EquivPairs (F : FloatOps α) : Pairs α → Pairs α → Prop
   | cons (k k' v v' : Value α) (r s : Pairs α) : Equiv F k k' → Equiv F v v' → EquivPairs F r s →
       EquivPairs F (.cons k v r) (.cons k' v' s)
 end
+
+/-! ## object level -/
+
+/-- a variable name as it can stand in a save file line: an identifier — non-empty, shorter than the 100-byte
+    buffer of restore_object_from_buff, no blank / LF / NUL, not starting with `#` (comment lines) -/
+def nameOK (n : List Byte) : Bool :=
+  n != [] && decide (n.length < 100) && n.all (fun b => b != 32 && b != 10 && b != 0) && n.head? != some 35
+
+/-- **Domain of the object-level round trip**: the variable names are identifiers and pairwise different (two
+    variables of one name at different inheritance levels are NOT restored correctly: open finding K6), every
+    non-static value is in the domain of `roundtrip` -/
+def objSavable (vars : List (Var α)) : Bool :=
+  vars.all (fun v => nameOK v.name) && decide ((vars.map (·.name)).Nodup) &&
+    vars.all (fun v => v.isStatic || savable v.val)
+
+/-- what restore_object must leave in the object: `saved` = the variables at save time, `live` = the variables
+    of the (same program's) object at restore time, third list = the variables afterwards: a static variable keeps
+    its live value, a non-static one holds the saved value (equal up to `Equiv`, object references as 0) -/
+inductive ObjRestored (F : FloatOps α) : List (Var α) → List (Var α) → List (Var α) → Prop
+  | nil : ObjRestored F [] [] []
+  | static (s l : Var α) (ss ls rs : List (Var α)) : s.isStatic = true → l.isStatic = true → l.name = s.name →
+      ObjRestored F ss ls rs → ObjRestored F (s :: ss) (l :: ls) (l :: rs)
+  | saved (s l : Var α) (x : Value α) (ss ls rs : List (Var α)) : s.isStatic = false → l.isStatic = false →
+      l.name = s.name → Equiv F (erase s.val) x → ObjRestored F ss ls rs →
+      ObjRestored F (s :: ss) (l :: ls) (⟨s.name, false, x⟩ :: rs)
 
 end NV.C16
